@@ -181,3 +181,31 @@ def callees_in_blocks(F, b, blocks):
             if fn:
                 out.append(fn.get("res") or fn.get("path") or "")
     return out
+
+
+def inclusive_range_limit(b, ty="u32"):
+    """the operand L of the single `0..=L` / `0..L + 1` range over `ty` built in body b, or (None, why).  An exclusive range
+    counts only when its end is `L + 1` with the addition outermost (a `+ 1` buried under a min() is a different range)."""
+    incl = [t for _, t in b.calls() if re.search(r"RangeInclusive::<Idx>::new$", callee_name(t)) and t["f"]["args"] == [ty]]
+    excl = [st for bl in b.blocks for st in bl["s"] if st["rv"]["r"] == "agg" and st["rv"].get("adt") == "std::ops::Range" and op_const(st["rv"]["ops"][0]) and op_const(st["rv"]["ops"][0])["ty"] == ty]
+    if len(incl) + len(excl) != 1:
+        return None, "no single %s range found" % ty
+    if incl:
+        return (incl[0]["a"][1], "0..=limit") if op_int(incl[0]["a"][0]) == 0 else (None, "the range does not start at 0")
+    if op_int(excl[0]["rv"]["ops"][0]) != 0:
+        return None, "the range does not start at 0"
+    o = excl[0]["rv"]["ops"][1]
+    for _ in range(4):
+        pl = op_place(o)
+        if pl is None:
+            break
+        ds = [d for d in b.defs().get(pl["l"], []) if not d[2]["d"]["p"]]
+        if len(ds) != 1 or ds[0][1] == "T":
+            break
+        rv = ds[0][2]["rv"]
+        if rv["r"] == "bin" and rv["op"] in ("Add", "AddWithOverflow", "AddUnchecked") and (op_int(rv["b"]) == 1 or op_int(rv["a"]) == 1):
+            return (rv["a"] if op_int(rv["b"]) == 1 else rv["b"]), "0..limit + 1"
+        if rv["r"] != "use":
+            break
+        o = rv["o"]
+    return None, "0..limit (the end is not `limit + 1`)"
